@@ -20,14 +20,22 @@ Verdict(rec) ==
                          \E k \in FlagNames : ~((spec(i).cyc \/ spec(j).cyc) /\ k \in SimpleFlags) /\ E[i].flags[k] # E[j].flags[k] }
       badDoc   == { i \in DOMAIN E : ~E[i].failed /\ WellTypedSchema(NodeAt(b, pos(i))) /\
                       (~E[i].flags.IsSimpleSchema /\ ~E[i].flags.IsArray /\ ~E[i].flags.IsMap) # DocumentedComplex(NodeAt(b, pos(i))) }
+      \* "classifies exactly like the schema it refers to" also when it comes to failing: a $ref-only schema is classified iff its target is;
+      \* and when every $ref of the document resolves there is nothing Schema() could legitimately fail on
+      allResolve == \A x \in BundleRefs(b) : Valid(b, x[2])
+      badFailRef == IF ~allResolve THEN {} ELSE
+                    { i \in DOMAIN E : HasRef(NodeAt(b, pos(i))) /\ \E j \in DOMAIN E : pos(j) = RefOf(NodeAt(b, pos(i))) /\ E[i].failed # E[j].failed }
+      badFail  == IF allResolve THEN { i \in DOMAIN E : E[i].failed } ELSE {}
       crashed  == rec.crash # "none"
   IN
-  /\ Out(<<"VERDICT", rec.tid, "C20", ~crashed /\ badAgree = {} /\ badCoh = {} /\ badRef = {} /\ badDoc = {}>>)
+  /\ Out(<<"VERDICT", rec.tid, "C20", ~crashed /\ badAgree = {} /\ badCoh = {} /\ badRef = {} /\ badDoc = {} /\ badFailRef = {} /\ badFail = {}>>)
   /\ (~crashed \/ Out(<<"DIAG", rec.tid, "C20", "crash." \o rec.crash, <<>> >>))
   /\ (badAgree = {} \/ LET i == CHOOSE x \in badAgree : TRUE IN
                          Out(<<"DIAG", rec.tid, "C20", "flags", Differing(E[i].flags, spec(i)), E[i].p>>))
   /\ (badCoh = {} \/ Out(<<"DIAG", rec.tid, "C20", "incoherent", E[CHOOSE x \in badCoh : TRUE].p>>))
   /\ (badRef = {} \/ Out(<<"DIAG", rec.tid, "C20", "ref-not-transparent", E[CHOOSE x \in badRef : TRUE].p>>))
+  /\ (badFailRef = {} \/ Out(<<"DIAG", rec.tid, "C20", "ref-fails-unlike-target", E[CHOOSE x \in badFailRef : TRUE].p>>))
+  /\ (badFail = {} \/ Out(<<"DIAG", rec.tid, "C20", "fails-although-all-refs-resolve", E[CHOOSE x \in badFail : TRUE].p>>))
   /\ (badDoc = {} \/ Out(<<"DIAG", rec.tid, "C20", "documented-rule", E[CHOOSE x \in badDoc : TRUE].p>>))
   /\ Out(<<"STAT", rec.tid, Len(E), Cardinality({ i \in DOMAIN E : HasRef(NodeAt(b, pos(i))) }), Cardinality({ i \in DOMAIN E : spec(i).cyc })>>)
 
